@@ -31,7 +31,8 @@ RULE = ('(A) argument lists (0-6 args, 0-12 chars) over printable characters '
         'the end; distinct = multiset of per-argument abstractions (char '
         'classes with backslash-run lengths).  (B) histories of 2-6 '
         'configure/regenerate runs of the msbuild backend over scripts whose '
-        'steps (command, build_step, alias, copy_file with dependencies, some '
+        'steps (command, build_step with one or two outputs, alias, copy_file '
+        'with dependencies, some '
         'of them explicit defaults) are added, kept, renamed and removed; non-trivial when a project '
         'survives a run in which another project was added or removed; '
         'distinct = abstracted operation sequence.')
@@ -317,6 +318,14 @@ def prop_ninja(rec):
             expected.append(exp)
         multi = len(cmds) > 1
         thing = shell_list(line) if multi or case['wrap'] else line
+        if case.get('tool'):
+            # the command starts with a tool object, expanded to its command
+            # the way the build-file writers do it
+            from bfg9000.tools.common import Command
+            tool = Command(None, command=('vftool', ['vftool.exe'], True))
+            thing = type(thing)([tool] + list(thing))
+            thing = Command.convert_args(thing, lambda t: t.command)
+            expected[0] = ['vftool.exe'] + expected[0]
         old = nsyntax.platform_info
         nsyntax.platform_info = lambda: _WinPlatform
         try:
@@ -325,7 +334,7 @@ def prop_ninja(rec):
             nsyntax.platform_info = old
         text = out.stream.getvalue()
         cmdline = _ninja_unescape(text, {'srcdir': SRCDIR_VALUE})
-        if isinstance(thing, shell_list):
+        if multi or case['wrap']:       # (declared as a shell list)
             pre, post = 'cmd /s /c "', '"'
             if not (cmdline.startswith(pre) and cmdline.endswith(post)):
                 raise Violation('ninja/wrap', 'shell list not wrapped with '
@@ -360,7 +369,8 @@ def ninja_cases(draw):
     ncmd = draw(st.integers(1, 3))
     cmds = [[arg() for _ in range(draw(st.integers(1, 4)))]
             for _ in range(ncmd)]
-    return {'cmds': cmds, 'wrap': draw(st.booleans())}
+    return {'cmds': cmds, 'wrap': draw(st.booleans()),
+            'tool': draw(st.booleans())}
 
 
 jbos_cases = st.fixed_dictionaries({
@@ -474,6 +484,11 @@ def render_script(steps, defaults=()):
             lines.append('{} = build_step({!r}, cmd=["touch", {!r}], '
                          'extra_deps={})'.format(v, s['name'], s['name'],
                                                  deps))
+        elif s['kind'] == 'multi_step':
+            # a step with two outputs: still one project
+            outs = [s['name'], s['name'] + '.aux']
+            lines.append('{} = build_step({!r}, cmd=["touch"] + {!r}, '
+                         'extra_deps={})[0]'.format(v, outs, outs, deps))
         elif s['kind'] == 'alias':
             lines.append('{} = alias({!r}, {})'.format(v, s['name'], deps))
         elif s['kind'] == 'copy_file':
@@ -573,12 +588,13 @@ class MsbuildMachine(RuleBasedStateMachine):
         self.changed_since = False
         self.defaults = []      # ids of the explicit default outputs
 
-    @precondition(lambda self: any(s['kind'] in ('build_step', 'copy_file')
+    @precondition(lambda self: any(s['kind'] in ('build_step', 'copy_file',
+                                                 'multi_step')
                                    for s in self.steps))
     @rule(data=st.data())
     def set_defaults(self, data):
         ids = [s['id'] for s in self.steps
-               if s['kind'] in ('build_step', 'copy_file')]
+               if s['kind'] in ('build_step', 'copy_file', 'multi_step')]
         n = data.draw(st.integers(0, min(3, len(ids))))
         self.defaults = list(data.draw(st.permutations(ids)))[:n]
         by_id = {s['id']: s['name'] for s in self.steps}
@@ -613,7 +629,7 @@ class MsbuildMachine(RuleBasedStateMachine):
         return {s['name'] for s in self.steps}
 
     @rule(kind=st.sampled_from(['command', 'build_step', 'alias',
-                                'copy_file']),
+                                'copy_file', 'multi_step']),
           name=st.sampled_from(NAME_POOL), deps=st.data(),
           arg=st.sampled_from(['hi', 'a b', 'x"y', '100%', 'c\\']))
     def add(self, kind, name, deps, arg):
@@ -629,7 +645,7 @@ class MsbuildMachine(RuleBasedStateMachine):
              'deps': sorted(chosen), 'arg': arg}
         self.next_id += 1
         self.steps.append(s)
-        if kind in ('build_step', 'copy_file') and \
+        if kind in ('build_step', 'copy_file', 'multi_step') and \
                 deps.draw(st.integers(0, 2)) == 0:
             self.defaults.append(s['id'])      # an explicit default
         self.history.append(['add', kind, name, s['deps']])
